@@ -9,7 +9,7 @@ pub fn add_signed_mul(
     memory: &mut Memory,
 ) -> SignedWord
 /*@
-    requires a@.len() >= b@.len(), b@.len() <= MAX_SMALLER_LEN, old(c)@.len() == a@.len() + b@.len(), old(c)@.len() <= usize::MAX,
+    requires a@.len() >= b@.len(), b@.len() <= 1024 /* MAX_SMALLER_LEN */, old(c)@.len() == a@.len() + b@.len(), old(c)@.len() <= usize::MAX,
         3 * old(c)@.len() + 4 <= SignedWord::MAX,
         mem_ok(*old(memory), gneed(b@.len() as int)),
     ensures final(c)@.len() == old(c)@.len(), -rbnd(old(c)@.len() as int) <= ret <= rbnd(old(c)@.len() as int),
